@@ -44,7 +44,7 @@ m = {
     }],
     "checks": checks,
     "not_applicable": na,
-    "notes": "Exit codes: 0 = held, 1 = VIOLATION line printed, 2 = machinery error. known_findings.json lists recorded defects (never written at run time). See DESIGN.md.",
+    "notes": "Exit codes: 0 = held, 1 = VIOLATION line printed, 2 = machinery error. known_findings.d/Cxx.json list recorded defects and fixed: entries (never written at run time). DESIGN.md section 12 describes the framework as built; notes/Cxx.md is the per-property report.",
 }
 json.dump(m, open(os.path.join(VERIF, "MANIFEST.json"), "w"), indent=1)
 print("MANIFEST.json: %d checks, %d not claimed" % (len(checks), len(na)))
